@@ -210,6 +210,16 @@ def pair_scenarios() -> dict[str, dict[str, Any]]:
         # a second worker of the same process polls it while the first is still inside its handler
         "buffered-resume-vs-second-worker": {"spec": gate, "hold": "RunTask:g", "workers": 2, "kind": "signal", "persistent": True, "signal_when": "StartStage:g",
                                              "second_worker_polls": 3},
+        # the gate is the target of a jump: JumpToStage re-arms it (and hands it the jump context) while the signal handler
+        # buffers a persistent signal on it
+        "signal-vs-jump-persistent": {"spec": {"name": "gatejump", "stages": [stage("a", [], [{"b": "jump", "to": "g", "j": 1, "emit": []}]), stage("b", ["a"], [ok()]),
+                                                                              stage("g", ["b"], [{"b": "suspend", "emit": [emit("k_g")]}]), stage("z", ["g"], [ok()])]},
+                                      "hold": "JumpToStage:a|SignalStage:g", "workers": 2, "kind": "signal", "persistent": True, "signal_when": "JumpToStage:a"},
+        # ... and the same with an earlier signal already in the gate's buffer (the gate suspends twice and needs both)
+        "signal-vs-jump-second-signal": {"spec": {"name": "gatejump2", "stages": [stage("a", [], [{"b": "jump", "to": "g", "j": 1, "emit": []}]), stage("b", ["a"], [ok()]),
+                                                                                  stage("g", ["b"], [{"b": "suspend", "k": 2, "emit": [emit("k_g")]}]), stage("z", ["g"], [ok()])]},
+                                         "hold": "JumpToStage:a|SignalStage:g", "workers": 2, "kind": "signal", "persistent": True, "signal_when": "JumpToStage:a",
+                                         "pre_signal": True, "expect_exec": 3},
         "signal-vs-startstage-transient": {"spec": gate, "hold": "StartStage:g|SignalStage:g", "workers": 2, "kind": "signal", "persistent": False, "signal_when": "StartStage:g"},
     }
 
@@ -234,6 +244,10 @@ def prepare_pair(sc: dict[str, Any]) -> dict[str, Any]:
     run = Run(sc["spec"], Schedule())
     injected = False
     guard = 0
+    if sc.get("pre_signal"):
+        # an earlier persistent signal, sent and handled before anything else: it sits in the gate's buffer from the start
+        inj_signal("g", "go0", {"p": 0}, True)(run)
+        run.deliver([r for r in run.eligible() if _key(r) == "SignalStage:g"][0])
     while guard < 500:
         guard += 1
         pend = [_key(r) for r in run.w.pending()]
@@ -298,7 +312,7 @@ def judge_pair(c: Campaign, name: str, sc: dict[str, Any], w: World, s: Sched, p
         n = got["counts"].get("g.t0", 0)
         gst = got["stages"].get("g")
         buf = json.loads(w.scalar("SELECT context FROM stage_executions WHERE id = 'W1-g'") or "{}").get("_buffered_signals")
-        released = n == 2 and gst == "SUCCEEDED" and got["workflow"] == "SUCCEEDED" and not buf
+        released = n == sc.get("expect_exec", 2) and gst == "SUCCEEDED" and got["workflow"] == "SUCCEEDED" and not buf
         untouched = n == 1 and gst == "SUSPENDED" and got["workflow"] == "RUNNING" and not buf
         if sc["persistent"]:
             if not released:
